@@ -367,4 +367,165 @@ theorem emit_eq (o : Opts) (as : List ARec) (hv : o.valid = true) (h1 : 1 ≤ as
     simp [crc32cLE]
   · simp [hc]
 
+/-! ### the strict reader on the emitted bytes -/
+
+theorem flag_decode (o : Opts) (size : Nat) (h4 : size ≤ 4) :
+    (flagByte o size / 128 % 2 == 1) = o.hasIdx ∧ (flagByte o size / 64 % 2 == 1) = o.hasCrc ∧
+    (flagByte o size / 32 % 2 == 1) = o.hasCache ∧ flagByte o size % 8 = size ∧ flagByte o size / 8 % 4 = 0 := by
+  unfold flagByte b2n
+  cases o.hasIdx <;> cases o.hasCrc <;> cases o.hasCache <;> simp <;> omega
+
+/-- the header the strict reader must see -/
+def headerOf (o : Opts) (as : List ARec) : Header :=
+  ⟨o.hasIdx, o.hasCrc, o.hasCache, sizeOf as, offOf o as, as.length, (payloadOf (sizeOf as) as).length, [0]⟩
+
+theorem readHeader_body (o : Opts) (as : List ARec) (hv : o.valid = true) (h1 : 1 ≤ as.length) (hn : as.length < 2 ^ 32)
+    (hP : (payloadOf (sizeOf as) as).length * 2 < 2 ^ 64) (tail : Bytes) :
+    readHeader (bodyOf o as ++ tail) =
+      some (headerOf o as, indexOf o (offOf o as) (sizeOf as) as ++ (payloadOf (sizeOf as) as ++ tail)) := by
+  have hsz1 : 1 ≤ sizeOf as := byteWidth_pos _ h1
+  have hsz4 : sizeOf as ≤ 4 := byteWidth_le _ 4 (by simpa using hn)
+  have hnlt : as.length < 256 ^ sizeOf as := lt_pow_byteWidth _
+  have hone : (1 : Nat) < 256 ^ sizeOf as := Nat.one_lt_pow (by omega) (by decide)
+  have hzero : (0 : Nat) < 256 ^ sizeOf as := by omega
+  have hoff8 : offOf o as ≤ 8 := by
+    unfold offOf
+    apply byteWidth_le
+    split <;> omega
+  have hoff1 : 1 ≤ offOf o as := by
+    unfold offOf
+    apply byteWidth_pos
+    have : 2 ≤ (payloadOf (sizeOf as) as).length := by
+      match as, h1 with
+      | a :: rest, _ => simp [payloadOf, ARec.bytes]
+    split <;> omega
+  have hPlt : (payloadOf (sizeOf as) as).length < 256 ^ offOf o as := by
+    unfold offOf
+    split
+    · exact Nat.lt_of_le_of_lt (by omega) (lt_pow_byteWidth _)
+    · exact lt_pow_byteWidth _
+  obtain ⟨f1, f2, f3, f4, f5⟩ := flag_decode o (sizeOf as) hsz4
+  have hci : (o.hasCache && !o.hasIdx) = false := by
+    simp [Opts.valid] at hv
+    cases hc : o.hasCache <;> cases hi : o.hasIdx <;> simp_all
+  unfold readHeader bodyOf
+  simp only [List.append_assoc, takeN_append bocMagic _ 4 rfl, Option.bind_eq_bind, Option.bind_some, List.cons_append,
+    uintBE_one, f1, f2, f3, f4, f5, uintBE_natToBE _ _ _ hnlt, uintBE_natToBE _ _ _ hone, uintBE_natToBE _ _ _ hzero,
+    uintBE_natToBE _ _ _ hPlt, hci]
+  have hroots : uintsBE 1 (sizeOf as) (natToBE (sizeOf as) 0 ++
+      (indexOf o (offOf o as) (sizeOf as) as ++ (payloadOf (sizeOf as) as ++ tail))) =
+      some ([0], indexOf o (offOf o as) (sizeOf as) as ++ (payloadOf (sizeOf as) as ++ tail)) := by
+    simp [uintsBE, uintBE_natToBE _ _ _ hzero]
+  have hm : (bocMagic != [181, 238, 156, 114]) = false := by decide
+  have hs : (decide (sizeOf as < 1) || decide (sizeOf as > 4)) = false := by simp; omega
+  have ho : (decide (offOf o as < 1) || decide (offOf o as > 8)) = false := by simp; omega
+  have hr : (decide (1 < 1) || (0 != 0) || decide (1 > as.length)) = false := by
+    have : ¬ (1 > as.length) := by omega
+    simp [this]
+  simp only [hroots, hm, hs, ho, hr, Option.bind_some]
+  have hpos : 0 < as.length := by omega
+  simp [headerOf, hpos]
+
+
+theorem cumulativeFrom_length : ∀ (lens : List Nat) (acc : Nat), (cumulativeFrom acc lens).length = lens.length
+  | [], _ => rfl
+  | l :: ls, acc => by simp [cumulativeFrom, cumulativeFrom_length ls]
+
+/-- references strictly forward (the `ValidOrder` clause on flat records) -/
+def Forward (as : List ARec) : Prop := ∀ (i : Nat) (a : ARec), as[i]? = some a → ∀ j ∈ a.refs, i < j
+
+theorem refsForward_of (as : List ARec) (ok : ∀ a ∈ as, a.OK as.length) (fw : Forward as) :
+    refsForward (as.map ARec.toSRec) = true := by
+  unfold refsForward
+  rw [List.all_eq_true]
+  intro ⟨r, i⟩ hri
+  rw [List.mem_zipIdx_iff_getElem?] at hri
+  simp only [List.getElem?_map, Option.map_eq_some_iff] at hri
+  obtain ⟨a, ha, rfl⟩ := hri
+  rw [List.all_eq_true]
+  intro j hj
+  have hmem : a ∈ as := List.mem_of_getElem? ha
+  have h1 := fw i a ha j hj
+  have h2 := (ok a hmem).refs_lt j hj
+  simp [h1, h2]
+
+theorem index_entry_lt (o : Opts) (as : List ARec) :
+    ∀ v ∈ cumulative (lensOf (sizeOf as) as), (if o.hasCache = true then v * 2 else v) < 256 ^ offOf o as := by
+  intro v hv
+  have hle := cumulativeFrom_le _ 0 v hv
+  have hsum : (lensOf (sizeOf as) as).sum = (payloadOf (sizeOf as) as).length := by
+    unfold payloadOf lensOf; simp [List.length_flatten, List.map_map, Function.comp_def]
+  rw [hsum] at hle
+  unfold offOf
+  split
+  · exact Nat.lt_of_le_of_lt (by omega) (lt_pow_byteWidth _)
+  · exact Nat.lt_of_le_of_lt (by omega) (lt_pow_byteWidth _)
+
+theorem crc32cLE_length (b : Bytes) : (crc32cLE b).length = 4 := by
+  simp [crc32cLE, Spec.le32]
+
+def tailOf (o : Opts) (as : List ARec) : Bytes := if o.hasCrc then crc32cLE (bodyOf o as) else []
+
+theorem tail_ok (o : Opts) (as : List ARec) :
+    (if o.hasCrc = true then (tailOf o as).length == 4 &&
+        tailOf o as == crc32cLE ((bodyOf o as ++ tailOf o as).take ((bodyOf o as ++ tailOf o as).length - 4))
+      else (tailOf o as).isEmpty) = true := by
+  unfold tailOf
+  by_cases hc : o.hasCrc = true
+  · simp only [hc, if_true, List.length_append, crc32cLE_length, Nat.add_sub_cancel, List.take_left']
+    simp
+  · simp [hc]
+
+theorem unscale (c : Bool) (xs : List Nat) :
+    List.map ((fun e => if c = true then e / 2 else e) ∘ fun e => if c = true then e * 2 else e) xs = xs := by
+  cases c <;> simp [Function.comp_def]
+
+theorem readBody_emit (o : Opts) (as : List ARec) (ok : ∀ a ∈ as, a.OK as.length) (fw : Forward as) :
+    readBody (headerOf o as) (bodyOf o as ++ tailOf o as)
+      (indexOf o (offOf o as) (sizeOf as) as ++ (payloadOf (sizeOf as) as ++ tailOf o as)) =
+      some ⟨as.map ARec.toSRec, [0]⟩ := by
+  have hnlt : as.length ≤ 256 ^ sizeOf as := Nat.le_of_lt (lt_pow_byteWidth _)
+  have hcells := readCells_payload (sizeOf as) as.length hnlt as ok
+  have hidx : uintsBE as.length (offOf o as)
+        (((cumulative (lensOf (sizeOf as) as)).map (fun e => natToBE (offOf o as) (if o.hasCache = true then e * 2 else e))).flatten
+          ++ (payloadOf (sizeOf as) as ++ tailOf o as)) =
+      some ((cumulative (lensOf (sizeOf as) as)).map (fun e => if o.hasCache = true then e * 2 else e),
+        payloadOf (sizeOf as) as ++ tailOf o as) := by
+    have := uintsBE_flatten (offOf o as) ((cumulative (lensOf (sizeOf as) as)).map (fun e => if o.hasCache = true then e * 2 else e))
+      (payloadOf (sizeOf as) as ++ tailOf o as) (by
+        intro v hv
+        obtain ⟨e, he, rfl⟩ := List.mem_map.1 hv
+        exact index_entry_lt o as e he)
+    simp only [List.length_map, cumulative, cumulativeFrom_length, lensOf, List.map_map] at this
+    simpa [cumulative, lensOf, Function.comp_def] using this
+  have hfst : List.map ((fun x => x.fst) ∘ fun a => (ARec.toSRec a, List.length (ARec.bytes (sizeOf as) a))) as = as.map ARec.toSRec := by
+    simp [Function.comp_def]
+  have hsnd : List.map ((fun x => x.snd) ∘ fun a => (ARec.toSRec a, List.length (ARec.bytes (sizeOf as) a))) as = lensOf (sizeOf as) as := by
+    simp [Function.comp_def, lensOf]
+  have hend : endOffsets (lensOf (sizeOf as) as) = cumulative (lensOf (sizeOf as) as) := endOffsetsFrom_eq _ 0
+  have hfw := refsForward_of as ok fw
+  unfold readBody indexOf
+  by_cases hi : o.hasIdx = true
+  · simp only [headerOf, hi, if_true, Option.bind_eq_bind, hidx, Option.bind_some, takeN_append _ _ _ rfl]
+    rw [show readCells as.length (sizeOf as) (payloadOf (sizeOf as) as) = _ from hcells]
+    simp only [Option.bind_some, List.map_map, unscale, tail_ok, hfst, hsnd, hend, hfw]
+    simp
+  · simp only [headerOf, hi, Option.bind_eq_bind, Option.bind_some, takeN_append _ _ _ rfl, List.nil_append, Bool.false_eq_true, ↓reduceIte]
+    rw [show readCells as.length (sizeOf as) (payloadOf (sizeOf as) as) = _ from hcells]
+    simp only [Option.bind_some, List.map_map, tail_ok, hfst, hfw]
+    simp
+
+
+/-- MAIN BYTE-LEVEL THEOREM: for every list of well-formed records with strictly forward references and every valid
+option set, `emit` succeeds and the byte-level strict reader recovers exactly the records and the root list `[0]`. -/
+theorem strictFlat_emit (o : Opts) (as : List ARec) (hv : o.valid = true) (h1 : 1 ≤ as.length) (hn : as.length < 2 ^ 32)
+    (hP : (payloadOf (sizeOf as) as).length * 2 < 2 ^ 64) (ok : ∀ a ∈ as, a.OK as.length) (fw : Forward as) :
+    ∃ bs, emit (as.map ARec.toRec) o = some bs ∧ bs = bodyOf o as ++ tailOf o as ∧
+      strictFlat bs = some ⟨as.map ARec.toSRec, [0]⟩ := by
+  refine ⟨_, emit_eq o as hv h1 hn hP ok, rfl, ?_⟩
+  unfold strictFlat
+  rw [show (if o.hasCrc = true then crc32cLE (bodyOf o as) else []) = tailOf o as from rfl]
+  simp only [readHeader_body o as hv h1 hn hP, Option.bind_eq_bind, Option.bind_some]
+  exact readBody_emit o as ok fw
+
 end TonVerif.Proofs.BocEmit
